@@ -50,8 +50,10 @@ def split_clauses(spec):
             comment = spec[i:j]
             # attach tags to the clause just completed (trailing comment on the same line)
             tags = re.findall(r"#(C\d+)", comment)
+            line_start = spec.rfind("\n", 0, i) + 1
+            standalone = spec[line_start:i].strip() == ""
             if tags:
-                if cur.strip():
+                if cur.strip() or standalone:
                     # comment in the middle/at end of a clause line before the comma?  attach to current
                     out.append({"_tags_for_next": tags})
                 elif out:
